@@ -84,6 +84,11 @@ def run(tier="quick", seed=1, replay=None):
             for i, h in enumerate(pick):
                 atts = [sorted(a, key=lambda x: (x["slot"], x["b"])) for a in h] + [[]]     # + a fault-free retry
                 scripts.append(dict(t=i + 1, pre="old" if i % 4 == 3 else ("dup" if i % 4 == 1 else "none"), attempts=atts))
+            # two overlapping pulls that share every layer: the second joins the downloads of the first
+            t0s = len(scripts)
+            twins = [[]] + [[dict(slot="ca", b=b, f=f)] for b in (1, 2, 3) for f in ("flip", "trunc1")]
+            for k, first in enumerate(twins):
+                scripts.append(dict(t=t0s + k + 1, pre="twin", attempts=[first, []]))
             scripts += vf.load_witnesses(PROP)
             cov["bounds"] = f"{len(singles)} single-fault attempts exhaustively, {len(pick) - len(singles)} two-attempt scripts with <= 2 faults each sampled; every script ends with a fault-free attempt"
         recs, v, _ = vf.replay_and_validate(wd, scripts, "./server", "TestVFPullReplay", ["server"], "Trace_Pull",
